@@ -87,6 +87,14 @@ def sweep_cases(rnd, full):
         out.append(("megaline", piece * (1 << 18)))
     out.append(("manylines", "\n".join(["add rax, rbx", "vpaddb ymm1, ymm2, ymm3", "mov rax, 0x1122334455667788", "; c", "l:"] * 20000)))
     out.append(("manylines", "nop\n" * 100000))
+    # a maximum-length line (and a rejected one) behind 9 .. 999999 line breaks: anything that depends on the NUMBER of the line
+    for nl in (9, 99, 999, 9999, 99999, 999999):
+        for flt in (97, 98, 99, 100):
+            base = "mov rax, 0x1"
+            z = max(0, flt - (len(base.replace(" ", "")) + 1))
+            out.append(("lineno", "\n" * nl + "mov rax, 0x" + "0" * z + "1"))
+        out.append(("lineno", "\n" * nl + "bogus " + "a" * 92))
+        out.append(("lineno", "nop\n" * nl + "vpaddb ymm1, ymm2, [rax+rbx*8+0x" + "0" * 60 + "10]"))
     out.append(("manylines", "\n" * 200000 + "\r\n" * 1000 + ";" * 5000))
     return out
 
